@@ -203,6 +203,17 @@ Ev(e, env) ==
                         ELSE IF IsSeq(x) THEN (IF e.i < Len(x.v) THEN x.v[e.i + 1] ELSE Err)
                         ELSE IF x.t = "str" THEN (IF e.i < Len(x.v) THEN S(<<x.v[e.i + 1]>>) ELSE Err)
                         ELSE Err
+    \* a list comprehension (also outside the documented language): the list of elt for the items that pass the filter
+    [] e.k = "listcomp" ->
+         LET it == Ev(e.it, env) IN
+         IF Bad(it) THEN it ELSE IF it.t = "missing" THEN Un ELSE IF ~Iterable(it) THEN Err
+         ELSE LET items == Iter(it)
+                  envOf(i) == [n \in DOMAIN env \cup {"$x"} |-> IF n = "$x" THEN items[i] ELSE env[n]]
+                  cond(i) == Truth(Ev(e.cond, envOf(i)))
+                  elt(i) == Ev(e.elt, envOf(i))
+                  bad == \E i \in DOMAIN items : Bad(cond(i)) \/ (~Bad(cond(i)) /\ cond(i).v /\ (Bad(elt(i)) \/ elt(i).t = "missing"))
+                  idxs == SelectSeq([i \in DOMAIN items |-> i], LAMBDA i : cond(i).v)
+              IN IF bad THEN Un ELSE Li([j \in DOMAIN idxs |-> elt(idxs[j])])
     [] e.k = "ifexp" -> LET c == Truth(Ev(e.c, env)) x == Ev(e.a, env) y == Ev(e.b, env) IN      \* strict, like "bool"
                         IF Bad(c) \/ Bad(x) \/ Bad(y) THEN (IF c.t = "err" \/ x.t = "err" \/ y.t = "err" THEN Err ELSE Un)
                         ELSE IF c.v THEN x ELSE y
